@@ -2,7 +2,7 @@ SPECIFICATION FairSpec
 CONSTANTS
   Record = FALSE
   Scripts <- Scripts13
-  FaultChoices <- AnyFaults
+  FaultChoices <- SomeFaults
 PROPERTY Termination
 INVARIANT EachOnce
 INVARIANT ReturnsAfterAll
